@@ -1167,6 +1167,7 @@ pub fn run(ctx: &mut Ctx) {
         "writer acceptance / rejection index = model writer (insert_key assert + find_shorter assert)".into(),
         "cross-decoding: Lean decodes real sstable files (void/u64/range, uncompressed blocks); real Reader decodes Lean-encoded blocks; block bytes equal".into(),
         "sstable merge and columnar merge = Lean mergeSpec = Lean k-way merge incl. ordinal tables".into(),
+        "block-address store: Lean decodes the bit-packed index of real files (addresses of every block, ordinal → block search); real routing returns the same addresses".into(),
         "tantivy::termdict (fst backend) and columnar dictionary obey the same ordered-map spec".into(),
     ];
     if let Some(case) = ctx.replay.clone() {
